@@ -27,7 +27,7 @@ Extractors are registered per property in EXTRACTORS below (properties without a
                                       FenwickTree::get/set, bitenc mask/addr/get_by_addr/set_by_addr, bwt::bwt,
                                       utils::prescan) translated to Lean by tools/rs2lean.py; the equality theorems
                                       with the mirror models (Thm/GenSrc*.lean) are restated in Thm/C08|C18|C04.lean
-  C08 (genpm)    Gen/SrcShiftAndNext.lean, SrcKmpNext.lean, SrcHorspoolNext.lean, SrcBndmNext.lean
+  C08 (genpm)    Gen/SrcShiftAndNext.lean, SrcKmpNext.lean, SrcHorspoolNext.lean, SrcBndmNext.lean, SrcBomNext.lean
                                       constructors, find_all and Matches::next of ShiftAnd, KMP, Horspool, BNDM (search loops as
                                       functions on the explicit iterator state); Thm/GenSrc*Next.lean, restated in Thm/C08.lean
   C09 (genpm)    Gen/SrcHamming.lean  alignment::distance::hamming; Thm/GenSrcHamming.lean, restated in Thm/C09.lean
